@@ -399,7 +399,7 @@ def _verify_byte_order_attribute_on_field(
         )
     if (
         byte_order_attr
-        and byte_order_attr.string_constant.text == "Null"
+        and ir_data_utils.reader(byte_order_attr).string_constant.text == "Null"
         and not _field_may_have_null_byte_order(field, type_definition, ir)
     ):
         errors.append(
